@@ -1,3 +1,4 @@
+import BasicModel.Thm.Tables
 import BasicModel.Lemmas.LexCaseLine
 /-
   C16 — spelling variants of a line mean the same (lexer part).
@@ -197,6 +198,14 @@ theorem lex_case_insensitive_plain (s : Str) (h : ∀ t ∈ (lex s).2, isPayload
 
 example : lex "if a<=b then 100 else 200".toList = lex "IF A<=B THEN 100 ELSE 200".toList :=
   (lex_case_insensitive_plain "if a<=b then 100 else 200".toList (by decide +kernel) (by decide +kernel)).symm
+
+/-- the model's reserved-word table, minutia table and keyword spellings are the ones re-extracted from
+    `token.rs` on this run (`Gen/Keywords.lean`): an edit of a table in the Rust source breaks this obligation -/
+theorem tables_generated :
+    Lex.keywords = Gen.keywords ∧ (∀ p ∈ Gen.minutia, Lex.matchMinutia p.1 = some p.2) ∧
+    (∀ p ∈ Gen.wordText, Word.text p.1 = p.2.toList) ∧ (∀ p ∈ Gen.operatorText, Operator.text p.1 = p.2.toList) :=
+  ⟨Thm.Tables.keywords_generated, Thm.Tables.minutia_generated, Thm.Tables.word_text_generated,
+   Thm.Tables.operator_text_generated⟩
 
 end C16
 end Thm
